@@ -119,8 +119,6 @@ class ModuleInfo(object):
                 self.tree = ast.parse(source, filename=path)
         except SyntaxError as e:
             raise AnalysisError("cannot parse %s: %s" % (relpath, e))
-        from .normalise import normalise_module
-        self.tree = normalise_module(self.tree, name)
         self.is_package = os.path.basename(path) == "__init__.py"
         self.functions = {}
         self.classes = {}
@@ -196,7 +194,15 @@ class Program(object):
                     src = f.read()
                 mod = ModuleInfo(name, path, rel, src)
                 self.modules[name] = mod
-                self._index_module(mod)
+        # normalisation needs every module parsed first (helpers introduced in ANOTHER module are seen through too)
+        from .normalise import normalise_program
+        for mod in self.modules.values():
+            collect_imports(mod, mod.tree.body, mod.imports, mod.star_imports)
+        normalise_program(self.modules)
+        for mod in self.modules.values():
+            mod.imports.clear()
+            del mod.star_imports[:]
+            self._index_module(mod)
 
     def _load_clients(self):
         for sub in ("tests", "examples", "validtions"):
